@@ -90,12 +90,27 @@ where
     T: Piece,
     T::IntegralOf: Nums + ValueLevel + Translate + Copy + PartialEq,
 {
+    run_with::<T>(ends, cx, ks, None)
+}
+
+/// `over`: the pieces' coefficient vectors given by the caller instead of chosen here
+fn run_with<T>(ends: &[f64], cx: &mut Cx, ks: usize, over: Option<&[Vec<f64>]>) -> Verdict
+where
+    T: Piece,
+    T::IntegralOf: Nums + ValueLevel + Translate + Copy + PartialEq,
+{
     let n = ends.len();
     // per-piece coefficient choice (3 vectors for 1-2 pieces, 2 beyond)
     let mut srcs: Vec<Vec<f64>> = vec![];
     // power-of-two scale of all coefficients and of k0.y (scale invariance; only for short functions to bound the cost)
     let sc = if n <= 2 { [1.0, 8.673617379884035e-19, 1099511627776.0][cx.choose(3)] } else { 1.0 };
+    if let Some(o) = over {
+        srcs = o.to_vec();
+    }
     for i in 0..n {
+        if over.is_some() {
+            break;
+        }
         // for functions of 3..8 pieces a third alternative: the same polynomial as the previous piece, bit for bit
         let alt = if n <= 2 { cx.choose(3) } else if n <= 8 { cx.choose(if i == 0 { 2 } else { 3 }) + 1 } else if i % 5 == 3 { 3 } else { 1 + i % 2 };
         if alt == 3 && i > 0 {
@@ -429,11 +444,41 @@ pub fn check(thorough: bool, _seed: u64) -> Check {
         classes: (0..8).map(|_| ("", false)).collect::<Vec<_>>().into_iter().enumerate().map(|(i, _)| (["k0.x_inside_first_piece", "k0.x_at_first_end", "k0.x_beyond_first_end", "k0.x_at_second_end", "k0.x_at_third_end", "k0.x_at_last_end", "k0.x_beyond_last_end", "duplicate_breakpoints"][i], false)).collect(),
         bounds: json!({"shapes": "n = 9,17,33,65,129,257,300 (513,1025 thorough) breakpoints 0.5 + i/8, strictly increasing and with every 7th breakpoint repeated", "piece_types": "Poly1, Poly3, Log<Poly1>, Log<Poly4>", "k0": "4 knot positions"}),
     };
+    // sparse pieces and coincidences among the coefficients (a term that vanishes, a derived quantity that is exactly zero):
+    // the first piece takes every vector of a small cube, the second piece is fixed
+    let cube = Phase {
+        name: "coefficient-cube",
+        units: 17,
+        split: 2,
+        body: Box::new(move |unit, cx| {
+            let log = unit >= 8;
+            let d = if log { unit - 8 } else { unit };
+            let n = d + 1;
+            // up to 5 coefficients: {0,1,4,-2,0.25}^n; beyond: {0,1,-2}^n on the 7 highest lanes
+            let c: Vec<f64> = if n <= 5 {
+                (0..n).map(|_| [0.0, 1.0, 4.0, -2.0, 0.25][cx.choose(5)]).collect()
+            } else {
+                (0..n).map(|i| if i + 7 >= n { [0.0, 1.0, -2.0][cx.choose(3)] } else { 1.0 }).collect()
+            };
+            let two = cx.flag();
+            let ends: Vec<f64> = if two { vec![1.5, 4.0] } else { vec![3.0] };
+            let mut srcs = vec![c.clone()];
+            if two {
+                srcs.push(VEC_B[..n].to_vec());
+            }
+            let ks = [0usize, 6, 9, 23][cx.choose(4)];
+            macro_rules! go { ($($i:literal => $t:ty),*) => { match unit { $($i => run_with::<$t>(&ends, cx, ks, Some(&srcs)),)* _ => unreachable!() } }; }
+            go!(0 => Poly0, 1 => Poly1, 2 => Poly2, 3 => Poly3, 4 => Poly4, 5 => Poly5, 6 => Poly6, 7 => Poly7,
+                8 => Log<Poly0>, 9 => Log<Poly1>, 10 => Log<Poly2>, 11 => Log<Poly3>, 12 => Log<Poly4>, 13 => Log<Poly5>, 14 => Log<Poly6>, 15 => Log<Poly7>, 16 => Log<Poly8>)
+        }),
+        classes: (0..8).map(|i| (["k0.x_inside_first_piece", "k0.x_at_first_end", "k0.x_beyond_first_end", "k0.x_at_second_end", "k0.x_at_third_end", "k0.x_at_last_end", "k0.x_beyond_last_end", "duplicate_breakpoints"][i], false)).collect(),
+        bounds: json!({"piece_types": "Poly0..Poly7, Log<Poly0>..Log<Poly8>", "first piece": "every coefficient vector in {0,1,4,-2,0.25}^n for n <= 5 coefficients; {0,1,-2} on the 7 highest lanes beyond", "shapes": "[3] and [1.5,4] (second piece fixed)", "k0": "4 knot positions"}),
+    };
     Check {
         id: "C11",
         rule: "choice tree: (piece type, shape) unit x k0 x one coefficient vector per piece (the running knot threaded from piece to piece is the state, each piece one step); each leaf runs the real Piecewise::integral, indefinite, integral_iter_ref and integral_iter; non-trivial = >=3 pieces or k0.x strictly inside the first piece".into(),
         assumptions: vec!["f64::ln within 1 ulp (propagated into the tolerance)".into(), "tolerance 2^-40 * sum of the magnitudes of the terms of the pieces involved (accumulated constants included)".into()],
-        phases: vec![poly, log, bigp],
+        phases: vec![poly, log, bigp, cube],
         extra: Default::default(),
         controls: vec![],
     }
